@@ -289,7 +289,7 @@ def offset_found(ctx, f, cfg):
     b = f.one("DefaultMetricSearcher::find_offset_to_start")
     if not ctx.floor("C19.offset-found", "find_offset_to_start", 1 if b else 0, 1):
         return
-    roles = [("begin", ["param:begin_time_ms"], []), ("entry", ["call:read_u64"], ["param:begin_time_ms"])]
+    roles = [("begin", ["param:begin_time_ms"], []), ("entry", ["call:read_u64"], ["param:begin_time_ms"]), ("entry", ["call:from_be_bytes"], ["param:begin_time_ms"])]
     w = D.Walker(f, b, make_classifier(roles), unroll=2)
     paths = [p for p in w.walk(0, lambda bb, env: None) if p["outcome"][0] == "return" and _feasible(p)]
     n_ok = n_found = 0
